@@ -12,8 +12,9 @@ allocation).  So each property compares only the ASPECTS its statement (and the 
   ids       for every kind of dependency both sides call in this op: the identities of the functions that served it
   ledger    NET effect on the allocator ledger: blocks taken and still held at the end of the op, blocks that were live
             before the op and were returned; (blocks taken and returned inside the op cancel)
-  wipes     the code wipes AT LEAST as many bytes of stack temporaries as the model, every block it frees was wiped
-            (zeroed=1), and blocks returned to the allocator are wiped over at least the length the model wipes
+  wipes     every block the code frees was wiped (zeroed=1 in the allocator's own record), the same previously live blocks
+            are returned as in the model, and at least as many of their bytes went through the injected wipe (in any number
+            of calls); the bytes of STACK temporaries wiped are judged by the wipe-sizes oracle + the dead-stack scan
   A+B       both
 """
 import re
@@ -121,8 +122,8 @@ def aspect_differs(aspect, cb, mb):
             if _ledger(cb) != _ledger(mb):
                 return True
         elif a == 'wipes':
-            if _stack_wiped(cb) < _stack_wiped(mb):
-                return True
+            # (how many bytes of STACK temporaries are wiped is judged by the wipe-sizes oracle together with the dead-stack
+            # scan: a function that has no such temporary has nothing to wipe)
             if any(e.startswith('E free') and e.endswith('zeroed=0') for e in _events(cb)):
                 return True
             if _ledger(cb)[1] != _ledger(mb)[1]:
